@@ -116,7 +116,7 @@ func polyUniform(a *poly, seed *[SeedBytes]uint8, nonce uint16) error {
 	if _, err := state.Write([]uint8{uint8(nonce), uint8(nonce >> 8)}); err != nil {
 		return err
 	}
-	if _, err := state.Read(buf[:]); err != nil {
+	if _, err := state.Read(buf[:bufLen]); err != nil {
 		return err
 	}
 
